@@ -337,6 +337,53 @@ def run(tier):
                         break
                     except Exception:
                         pass
+    # (2c) misuse after ordinary use in the same process: a system whose mass cannot be determined stays not generable after another system was given
+    #      its mass by the caller; a token with a negative weight is refused by MolGen although a token with the same atoms was built before
+    try:
+        g.System("CCO.|40%|CC{[$][$]CC[$][$]}|gauss(50, 5)|CO.|60%|", 5000.0)
+    except Exception:
+        pass
+    for text in ("CCCCC.|10%|CC{[$][$]CC[$][$]}|gauss(50, 5)|CO", "CCO.|40%|CCC.|60%|"):
+        rules["under-determined-system-after-a-supplied-mass"] = rules.get("under-determined-system-after-a-supplied-mass", 0) + 1
+        n_obj += 1
+        try:
+            so = g.System(text)
+        except Exception:
+            continue
+        if so.generable:
+            v.violation("C15:under-determined-system-reported-generable:after-a-supplied-mass", f"System({text!r}).generable is True (system mass {getattr(so, 'system_mass', None)}) after another system "
+                                                                                              f"was constructed with a supplied mass; nothing determines the mass of this one", {"text": text})
+        for how, call in (("generate", lambda r: so.generate(rng=r)), ("generator", lambda r: next(iter(type(so).generator.fget(so, r))))):
+            try:
+                mg = call(np.random.default_rng(1))
+                v.violation(f"C15:accepted:generate-non-generable:system:{how}:after-a-supplied-mass", f"System({text!r}).{how} returns {getattr(mg, 'smiles', mg)!r} although the system is not generable", {"text": text})
+            except Exception:
+                pass
+    try:
+        so = g.System("CCO.|250|")          # a determined system is still accepted afterwards
+        if not so.generable:
+            raise RuntimeError("not generable")
+    except Exception as exc:
+        v.violation("C15:well-formed-system-rejected:after-a-supplied-mass", f"System('CCO.|250|') after a system with a supplied mass: {type(exc).__name__}: {str(exc)[:100]}", {"text": "CCO.|250|"})
+    from gbigsmiles.mol_gen import MolGen
+    for okt, badt in (("[<]CC(C)[>]", "[<]CC(C)[>|-1.0|]"), ("[<]CO[>]", "[<|-2.0|]CO[>]"), ("[$]CC[$]", "[$|-0.5|]CC[$]")):
+        rules["negative-weight-token-after-its-look-alike"] = rules.get("negative-weight-token-after-its-look-alike", 0) + 1
+        n_obj += 1
+        try:
+            MolGen(g.SmilesToken(okt, 0, 0))
+        except Exception as exc:
+            raise MachineryError(f"MolGen of {okt}: {exc}")
+        try:
+            tok = g.SmilesToken(badt, 0, 0)
+        except Exception:
+            continue          # refused at parse: fine
+        if tok.generable:
+            v.violation("C15:negative-weight-reported-generable", f"SmilesToken({badt!r}).generable is True", {"text": badt})
+        try:
+            mg = MolGen(tok)
+            v.violation("C15:accepted:generate-non-generable:token:after-its-look-alike", f"MolGen(SmilesToken({badt!r})) is built (after MolGen of {okt!r}) although the token is not generable", {"text": badt})
+        except Exception:
+            pass
     # (3) byte-level mutations: parsing terminates
     alphabet = "[]{}()|.,;$<>=#%0123456789 CNOHFclBr"
     bases = [m.text() + x for m in lib[:40] for x in ("", ".|1000|")]
